@@ -673,14 +673,37 @@ func replayC12(prop string, raw []byte) *h.Viol {
 // ---------- C17: filter-mode size ----------
 
 type c17Case struct {
+	Opt       string   `json:"opt,omitempty"` // option form ("" = no Opt argument)
 	KeysHex   []string `json:"keys_hex,omitempty"`
 	Family    string   `json:"family,omitempty"`
 	PrefixLen int      `json:"prefix_len"`
 	PrefixSym int      `json:"prefix_sym"`
 }
 
-func sizeOf(keys []string) (int, error) {
-	st, err := trie.NewSlimTrie(encode.Dummy{}, keys, nil)
+// filterForms are the option forms that ask for filter mode: every combination of
+// DedupValue in {nil,false,true} and InnerPrefix, LeafPrefix, Complete in {nil,false}.
+func filterForms() []h.Opt4 {
+	var out []h.Opt4
+	for d := int8(-1); d <= 1; d++ {
+		for i := int8(-1); i <= 0; i++ {
+			for l := int8(-1); l <= 0; l++ {
+				for c := int8(-1); c <= 0; c++ {
+					out = append(out, h.Opt4{D: d, I: i, L: l, C: c})
+				}
+			}
+		}
+	}
+	return out
+}
+
+func sizeOf(keys []string, form *h.Opt4) (int, error) {
+	var st *trie.SlimTrie
+	var err error
+	if form == nil {
+		st, err = trie.NewSlimTrie(encode.Dummy{}, keys, nil)
+	} else {
+		st, err = trie.NewSlimTrie(encode.Dummy{}, keys, nil, form.ToOpt())
+	}
 	if err != nil {
 		return 0, err
 	}
@@ -693,18 +716,20 @@ func sizeOf(keys []string) (int, error) {
 
 const c17PerKey, c17Const, c17LiftTol = 8, 256, 24
 
+var allFilterForms = filterForms()
+
 // evalC17 checks the absolute bound for keys and the lift bound for (keys, P+keys).
-func evalC17(w *h.Worker, keys []string, P string) *h.Viol {
+func evalC17(w *h.Worker, keys []string, P string, form *h.Opt4) *h.Viol {
 	var sz, sz2 int
 	var err, err2 error
 	if p := h.Safely(func() {
-		sz, err = sizeOf(keys)
+		sz, err = sizeOf(keys, form)
 		if P != "" {
 			lifted := make([]string, len(keys))
 			for i, k := range keys {
 				lifted[i] = P + k
 			}
-			sz2, err2 = sizeOf(lifted)
+			sz2, err2 = sizeOf(lifted, form)
 		}
 	}); p != nil || err != nil || err2 != nil {
 		w.DontCare++
@@ -856,7 +881,7 @@ func c17Families(sp *spaceCtx, thorough bool) map[string][]string {
 func runC17(r *h.Run) {
 	thorough := r.Tier == "thorough"
 	sp := newSpaceCtx(r.Seed)
-	r.Rule = "default options, nil values: all subsets of U(Sigma4,2) up to the tier's size (K(U85,3) in thorough), all scaffolds of the tier, and adversarial families (binary caterpillars n<=5000 with runs 0..3 and 16000 bytes, every-node-has-a-long-step trees, fan-out-11 byte nodes, all-distinct label bitmaps, testkeys sets, regular sets); for every explored K and every prefix P of the tier's list (1..16000 bytes of each alphabet symbol) the pair (K, P+K); oracle: len(Marshal) <= 8n+256 for both, |len(K) - len(P+K)| <= 24. A state is a distinct key set; non-trivial = at least 2 keys"
+	r.Rule = "filter mode, nil values, in every option form that asks for it (no Opt argument and all 24 combinations of DedupValue in {nil,false,true} x InnerPrefix, LeafPrefix, Complete in {nil,false} on the small sets; no-Opt, all-explicit-false and Complete=false alone on the large families): all subsets of U(Sigma4,2) up to the tier's size (K(U85,3) in thorough), all scaffolds of the tier, and adversarial families (binary caterpillars n<=5000 with runs 0..3 and 16000 bytes, every-node-has-a-long-step trees, fan-out-11 byte nodes, all-distinct label bitmaps, testkeys sets, regular sets); for every explored K and every prefix P of the tier's list (1..16000 bytes of each alphabet symbol) the pair (K, P+K); oracle: len(Marshal) <= 8n+256 for both, |len(K) - len(P+K)| <= 24. A state is a distinct key set; non-trivial = at least 2 keys"
 	r.Assumptions = []string{"tolerance 24 bytes for a lift: one root step (2 bytes), element count, one presence bit and varint / length-prefix growth; stored key material would add |P| >= 100 for the prefixes that decide"}
 	prefixes := c17Prefixes(sp.sigma, thorough)
 	r.Bounds["prefixes"] = len(prefixes)
@@ -882,9 +907,34 @@ func runC17(r *h.Run) {
 			if !u.small && len(P) > 0 && len(u.keys)*len(P) > 40000000 {
 				continue
 			}
-			w.Evals++
-			if v := evalC17(w, u.keys, P); v != nil {
+			// option forms: every filter-mode form on the small sets without a
+			// prefix and with the 100-byte prefixes; no-Opt, all-explicit-false and
+			// Complete=false alone elsewhere
+			forms := []*h.Opt4{nil, {D: 1, I: 0, L: 0, C: 0}, {D: -1, I: -1, L: -1, C: 0}}
+			if u.small && (len(P) == 0 || len(P) == 100) {
+				forms = []*h.Opt4{nil}
+				for _, f := range allFilterForms {
+					f := f
+					forms = append(forms, &f)
+				}
+			}
+			var v *h.Viol
+			var bad *h.Opt4
+			for _, f := range forms {
+				w.Evals++
+				if v = evalC17(w, u.keys, P, f); v != nil {
+					bad = f
+					break
+				}
+			}
+			if v != nil {
 				cj := c17Case{PrefixLen: len(P), Family: u.family}
+				if bad != nil {
+					cj.Opt = bad.String()
+					v.Msg += " opt=" + bad.String()
+				} else {
+					v.Msg += " (no Opt argument)"
+				}
 				if len(P) > 0 {
 					cj.PrefixSym = int(P[0])
 				}
@@ -972,5 +1022,10 @@ func replayC17(prop string, raw []byte) *h.Viol {
 	}
 	P := strings.Repeat(string([]byte{byte(cj.PrefixSym)}), cj.PrefixLen)
 	w := h.NewRun(prop, "quick", 0, "model_checking", 0).W0()
-	return evalC17(w, keys, P)
+	var form *h.Opt4
+	if cj.Opt != "" {
+		f := h.ParseOpt4(cj.Opt)
+		form = &f
+	}
+	return evalC17(w, keys, P, form)
 }
